@@ -24,6 +24,8 @@ class G:
         self.types = []          # generated type ASTs (non-generic instantiable: (ast, rust_name, generic?))
         self.count = 0
         self.n_entities = n_entities
+        self.wide_left = 2       # the first enums also get variants with more than ten fields
+        self.wide_struct_left = 1
 
     def field_desc(self, depth, allow_generic):
         r = self.rng.random()
@@ -46,6 +48,9 @@ class G:
             fs.append({"n": ("f%d" % i) if named else "", "t": t,
                        "ren": ("r%d_x" % i) if named and self.rng.random() < 0.25 else "",
                        "skip": plain and self.rng.random() < 0.2})
+            if fs[-1]["ren"]:
+                # a second forwarded attribute (without effect on the output) before or after the rename
+                fs[-1]["more"] = self.rng.choice(["", "pre", "post", "pre"])
             if fs[-1]["skip"] and self.rng.random() < 0.6:
                 # a converted field of the same type right after a skipped one (positional mix-ups show)
                 fs.append({"n": ("f%dn" % i) if named else "", "t": list(t), "ren": "", "skip": False})
@@ -61,15 +66,27 @@ class G:
             t["fields"] = self.fields(True, depth, generic)
         elif k == "tuple":
             t["fields"] = self.fields(False, depth, generic)
+            if self.wide_struct_left > 0:
+                self.wide_struct_left -= 1
+                t["fields"] = [{"n": "", "t": ["entity"], "ren": "", "skip": False}] + \
+                              [{"n": "", "t": ["u32"], "ren": "", "skip": False} for _ in range(11)] + t["fields"][:1]
         else:
             for vi in range(self.rng.randint(1, 4)):
                 vk = self.rng.choice(["unit", "tuple", "named"])
-                t["variants"].append({"n": "V%d" % vi, "k": vk,
+                t["variants"].append({"n": "V%d" % vi, "k": vk, "ren": ("VR%d_%s" % (vi, name)) if self.rng.random() < 0.25 else "",
                                       "fields": [] if vk == "unit" else self.fields(vk == "named", depth, generic, 3)})
+            if self.wide_left > 0:
+                # wide variants: more than ten fields (the later ones of one type, so that a permutation still compiles)
+                self.wide_left -= 1
+                wf = [{"n": "", "t": ["entity"], "ren": "", "skip": False}, {"n": "", "t": ["entity"], "ren": "", "skip": False}] + \
+                     [{"n": "", "t": ["u32"], "ren": "", "skip": False} for _ in range(self.rng.choice([9, 10, 11]))]
+                t["variants"].append({"n": "VW", "k": "tuple", "ren": "", "fields": wf})
+                nf = [{"n": "w%d" % i, "t": ["u32"] if i % 3 else ["entity"], "ren": "", "skip": False} for i in range(self.rng.choice([11, 12]))]
+                t["variants"].append({"n": "VN", "k": "named", "ren": "", "fields": nf})
         if generic and not any(f["t"][0] == "gen" for f in t["fields"] + [f for v in t["variants"] for f in v["fields"]]):
             # make sure the parameter is used
             if k == "enum":
-                t["variants"].append({"n": "VG", "k": "tuple", "fields": [{"n": "", "t": ["gen"], "ren": "", "skip": False}]})
+                t["variants"].append({"n": "VG", "k": "tuple", "ren": "", "fields": [{"n": "", "t": ["gen"], "ren": "", "skip": False}]})
             else:
                 t["fields"].append({"n": "fg" if k == "named" else "", "t": ["gen"], "ren": "", "skip": False})
         # the derive's data type is generic over the marker type and must use it somewhere
@@ -78,7 +95,7 @@ class G:
         allf = t["fields"] + [f for v in t["variants"] for f in v["fields"]]
         if not any(f["t"][0] in ("entity", "nested", "gen") for f in allf):
             if k == "enum":
-                t["variants"].append({"n": "VE", "k": "tuple", "fields": [{"n": "", "t": ["entity"], "ren": "", "skip": False}]})
+                t["variants"].append({"n": "VE", "k": "tuple", "ren": "", "fields": [{"n": "", "t": ["entity"], "ren": "", "skip": False}]})
             else:
                 t["fields"].append({"n": "fe" if k == "named" else "", "t": ["entity"], "ren": "", "skip": False})
         self.types.append(t)
@@ -102,7 +119,10 @@ def rust_typedef(t):
         if f["skip"]:
             a += "#[convert_save_load_skip_convert] "
         if f["ren"]:
-            a += '#[convert_save_load_attr(serde(rename = "%s"))] ' % f["ren"]
+            ren = '#[convert_save_load_attr(serde(rename = "%s"))] ' % f["ren"]
+            alias = '#[convert_save_load_attr(serde(alias = "%s_al"))] ' % f["ren"]
+            more = f.get("more", "")
+            a += (alias + ren) if more == "pre" else (ren + alias) if more == "post" else ren
         return a + (("%s: " % f["n"]) if named else "") + rust_field_ty(f["t"])
 
     if t["k"] == "named":
@@ -112,12 +132,13 @@ def rust_typedef(t):
     else:
         vs = []
         for v in t["variants"]:
+            va = ('#[convert_save_load_attr(serde(rename = "%s"))] ' % v["ren"]) if v.get("ren") else ""
             if v["k"] == "unit":
-                vs.append(v["n"])
+                vs.append(va + v["n"])
             elif v["k"] == "tuple":
-                vs.append("%s(%s)" % (v["n"], ", ".join(fld(f, False) for f in v["fields"])))
+                vs.append(va + "%s(%s)" % (v["n"], ", ".join(fld(f, False) for f in v["fields"])))
             else:
-                vs.append("%s { %s }" % (v["n"], ", ".join(fld(f, True) for f in v["fields"])))
+                vs.append(va + "%s { %s }" % (v["n"], ", ".join(fld(f, True) for f in v["fields"])))
         out.append("pub enum %s%s { %s }" % (t["name"], gen, ", ".join(vs)))
     return "\n".join(out)
 
@@ -142,7 +163,7 @@ class Inst:
                 dd = d
             return {"n": f["n"], "t": dd, "ren": f["ren"], "skip": f["skip"]}
         return {"k": t["k"], "name": t["name"], "fields": [rf(f) for f in t["fields"]],
-                "variants": [{"n": v["n"], "k": v["k"], "fields": [rf(f) for f in v["fields"]]} for v in t["variants"]]}
+                "variants": [{"n": v["n"], "k": v["k"], "ren": v.get("ren", ""), "fields": [rf(f) for f in v["fields"]]} for v in t["variants"]]}
 
     def value(self, d):
         """(TLA value AST, rust expr) for a resolved field descriptor"""
@@ -175,7 +196,7 @@ class Inst:
             return ["v", v], e
         raise ValueError(k)
 
-    def tvalue(self, T):
+    def tvalue(self, T, force_var=None):
         if T["k"] in ("named", "tuple"):
             vs, es = [], []
             for f in T["fields"]:
@@ -184,7 +205,7 @@ class Inst:
                 es.append(("%s: %s" % (f["n"], e)) if T["k"] == "named" else e)
             expr = ("%s { %s }" if T["k"] == "named" else "%s(%s)") % (T["name"], ", ".join(es))
             return vs, expr
-        vi = self.rng.randrange(len(T["variants"]))
+        vi = self.rng.randrange(len(T["variants"])) if force_var is None else force_var
         vr = T["variants"][vi]
         vs, es = [], []
         for f in vr["fields"]:
@@ -229,8 +250,9 @@ def generate(seed, ntypes, nvalues):
             tyexpr = t["name"]
             if t["generic"]:
                 tyexpr += "<%s>" % (ga[1]["name"] if ga[0] == "nested" else RUST_TY[ga[0]])
-            for _ in range(nvalues):
-                v, e = inst.tvalue(T)
+            forced = list(range(len(T["variants"]))) if T["k"] == "enum" else []      # every variant at least once
+            for fv in forced + [None] * nvalues:
+                v, e = inst.tvalue(T, fv)
                 # explicit type for generic instantiations
                 items.append((tid, T, v, tyexpr, e))
                 tid += 1
